@@ -12,6 +12,7 @@
  */
 
 #include "cppPreprocessor.h"
+#include "verif_trace.h"
 #include "cppExpressionParser.h"
 #include "cppExpression.h"
 #include "cppScope.h"
@@ -1666,6 +1667,7 @@ process_directive(int c) {
     << "#" << command << " " << args << "\n";
 #endif
 
+  VERIF_EVENT("{\"e\":\"Dir\",\"cmd\":" << VERIF_Q(command) << ",\"line\":" << begin_line << "}");
   if (command == "define") {
     handle_define_directive(args, loc);
   } else if (command == "undef") {
@@ -1811,6 +1813,7 @@ handle_undef_directive(const string &args, const YYLTYPE &loc) {
  */
 void CPPPreprocessor::
 handle_ifdef_directive(const string &args, const YYLTYPE &loc) {
+  VERIF_EVENT("{\"e\":\"Eval\",\"k\":\"ifdef\",\"val\":" << (is_manifest_defined(args) ? 1 : 0) << "}");
   if (!is_manifest_defined(args)) {
     // The macro is undefined.  Skip stuff.
     skip_false_if_block(true);
@@ -1822,6 +1825,7 @@ handle_ifdef_directive(const string &args, const YYLTYPE &loc) {
  */
 void CPPPreprocessor::
 handle_ifndef_directive(const string &args, const YYLTYPE &loc) {
+  VERIF_EVENT("{\"e\":\"Eval\",\"k\":\"ifndef\",\"val\":" << (is_manifest_defined(args) ? 0 : 1) << "}");
   if (is_manifest_defined(args)) {
     // The macro is defined.  Skip stuff.
     skip_false_if_block(true);
@@ -1853,6 +1857,7 @@ handle_if_directive(const string &args, const YYLTYPE &loc) {
     warning("Ignoring invalid expression " + args, loc);
   }
 
+  VERIF_EVENT("{\"e\":\"Eval\",\"k\":\"if\",\"val\":" << (expression_result ? 1 : 0) << "}");
   if (expression_result) {
     // The expression result is true.  We continue.
     return;
@@ -2012,6 +2017,7 @@ void CPPPreprocessor::
 skip_false_if_block(bool consider_elifs) {
   int level = 0;
   _save_comments = false;
+  VERIF_EVENT("{\"e\":\"SkipEnter\",\"celifs\":" << (consider_elifs ? 1 : 0) << "}");
 
   int c = skip_comment(get());
   while (c != EOF) {
@@ -2029,6 +2035,7 @@ skip_false_if_block(bool consider_elifs) {
       string command, args;
       c = get_preprocessor_command(c, command);
       c = get_preprocessor_args(c, args);
+      VERIF_EVENT("{\"e\":\"SkipDir\",\"cmd\":" << VERIF_Q(command) << ",\"level\":" << level << ",\"celifs\":" << (consider_elifs ? 1 : 0) << "}");
       if (command == "if" || command == "ifdef" || command == "ifndef") {
         // Hmm, a nested if block.  Even more to skip.
         level++;
@@ -2071,6 +2078,7 @@ skip_false_if_block(bool consider_elifs) {
     }
   }
 
+  VERIF_EVENT("{\"e\":\"SkipEOF\"}");
   _save_comments = true;
 }
 
